@@ -1,3 +1,348 @@
+// C20 -- running out of memory inside the library is an error, not a crash.
+// DESIGN.md section 6: for every generated call that allocates, every position k of the failing request
+// (once / from k on / sampled pairs) is enumerated; oracle = survival, failure-with-dest-cleared or
+// unchanged success, nothing outstanding, sources untouched.
+#include "ops.h"
 #include "props.h"
-int c20_batch(const Args &) { return 2; }
-int c20_replay(const std::string &) { return 2; }
+#include <errno.h>
+#include <wchar.h>
+#include <algorithm>
+
+struct C20Stats {
+    uint64_t ops = 0, alloc_ops = 0, dry = 0, faulted = 0, hit = 0, not_hit = 0, pairs = 0;
+    uint64_t out_fail_clean = 0, out_success_same = 0;
+    uint64_t wr_faults = 0, events = 0, leak_checks = 0;
+    uint64_t fn_ops[FN_COUNT] = {0}, fn_alloc_ops[FN_COUNT] = {0}, fn_faulted[FN_COUNT] = {0};
+    std::map<std::string, uint64_t> viol_count;
+    std::set<uint64_t> cases;
+    std::map<int, uint64_t> nalloc_hist;
+};
+
+static const Plan *g_cur_plan = nullptr;
+static uint64_t g_cur_seed = 0, g_cur_run = 0;
+static int g_cur_fn = 0;
+static const char *g_cur_phase = "dry";
+
+static std::string failed_site(const OpResult &r, const Fault &f) {
+    if (f.alloc_k >= 1 && (size_t)f.alloc_k <= r.sites.size()) return site_name(r.sites[f.alloc_k - 1]);
+    return "?";
+}
+static void c20_crash_hook(int sig) {
+    if (!g_cur_plan) return;
+    const Op &op = g_cur_plan->tasks[0].ops[0];
+    std::string site = "?";
+    if (g_sim.tasks.size() && g_sim.tasks[0]->res.size()) site = failed_site(g_sim.tasks[0]->res[0], op.f);
+    std::string key = std::string("crash:") + g_fn[g_cur_fn].name + ":" + site;
+    Schedule none;
+    std::string extra = "function " + std::string(g_fn[g_cur_fn].name) + "\nsignal " + std::to_string(sig) + "\n";
+    std::string path = write_replay("C20", "crash", key, g_cur_seed, g_cur_run, *g_cur_plan, none, extra);
+    if (!strcmp(g_cur_phase, "dry")) key = "crash-dry:" + std::string(g_fn[g_cur_fn].name);
+    printf("CRASH {\"run\":%llu,\"phase\":\"%s\",\"signal\":%d,\"key\":%s,\"replay\":%s}\n", (unsigned long long)g_cur_run, g_cur_phase, sig, jstr(key).c_str(), jstr(path).c_str());
+    fflush(stdout);
+}
+
+static void exec_one(const Plan &plan, PassResult &pr) {
+    Schedule empty;
+    ReplayStrategy st(empty, 1);
+    run_pass(plan, api_cfg(PASS_SOLO, 0, false), st, pr);
+}
+
+// what "failure" means for the function, and where its dest is
+struct Shape {
+    bool neg_is_failure; // printf families: negative count; otherwise non-zero errno_t
+    int dest = -1, dmax = -1, esz = 1;
+    bool has_dest = false;
+};
+static Shape shape_of(const Op &op) {
+    Shape s;
+    Fam f = g_fn[op.fn].fam;
+    s.neg_is_failure = f == FAM_FMT || f == FAM_WFMT || f == FAM_SFMT || f == FAM_SCAN;
+    if (f == FAM_FMT || f == FAM_WFMT || f == FAM_UNI || f == FAM_COPY || f == FAM_NCOPY) {
+        bool wide = f == FAM_WFMT || f == FAM_UNI || op.fn == FN_wcscpy_s || op.fn == FN_wcscat_s || op.fn == FN_wcsncpy_s || op.fn == FN_wcsncat_s || op.fn == FN_wmemcpy_s || op.fn == FN_wmemmove_s;
+        if (op.fn != FN_iswfc && op.a[0] >= 0 && op.a[1] > 0) {
+            s.has_dest = true;
+            s.dest = (int)op.a[0];
+            s.dmax = (int)op.a[1];
+            s.esz = wide ? 4 : 1;
+        }
+    }
+    return s;
+}
+
+static Task g_pre; // holds the pre-call image of the arena
+
+struct Verdict {
+    std::string cls; // "" = fine
+    std::string detail;
+};
+static Verdict judge(const Plan &plan, const OpResult &dry, const OpResult &r) {
+    Verdict v;
+    const Op &op = plan.tasks[0].ops[0];
+    Shape sh = shape_of(op);
+    if (r.outstanding) {
+        v.cls = "leak";
+        v.detail = std::to_string(r.outstanding) + " block(s) allocated by the call are still live at return";
+        return v;
+    }
+    if (!r.nfailed) return v; // the injected failure was not reached (request count changed): nothing to judge
+    bool failed = sh.neg_is_failure ? r.raw < 0 : r.raw != 0;
+    const uint8_t *post = g_sim.tasks[0]->arena.base;
+    const uint8_t *pre = g_pre.arena.base;
+    if (failed) {
+        if (sh.has_dest && (int64_t)sh.dest + (int64_t)sh.dmax * sh.esz <= ARENA_SIZE) {
+            // cleared: first element zero, and nothing the failed call produced is left behind
+            bool first_zero = true;
+            for (int b = 0; b < sh.esz; b++) first_zero &= post[sh.dest + b] == 0;
+            if (!first_zero) {
+                v.cls = "not-cleared";
+                v.detail = "call reports failure but dest[0] is not zero";
+                return v;
+            }
+            for (int i = 0; i < sh.dmax; i++) {
+                bool zero = true, same = true;
+                for (int b = 0; b < sh.esz; b++) {
+                    zero &= post[sh.dest + i * sh.esz + b] == 0;
+                    same &= post[sh.dest + i * sh.esz + b] == pre[sh.dest + i * sh.esz + b];
+                }
+                if (!zero && !same) {
+                    v.cls = "not-cleared";
+                    v.detail = "call reports failure but dest[" + std::to_string(i) + "] holds partial output";
+                    return v;
+                }
+            }
+        }
+        // source operands untouched
+        for (const Blob &bl : op.blobs) {
+            if (sh.has_dest && bl.off >= (uint32_t)sh.dest && bl.off < (uint32_t)(sh.dest + sh.dmax * sh.esz)) continue;
+            if (bl.bytes.size() <= 8) continue; // out-parameters (lenp, resultp, errp)
+            if (memcmp(post + bl.off, bl.bytes.data(), bl.bytes.size()) != 0) {
+                // a source that overlaps dest is excluded by the property; the generators of the
+                // allocating families never overlap them
+                v.cls = "source-modified";
+                v.detail = "a source operand at arena offset " + std::to_string(bl.off) + " changed although the call failed";
+                return v;
+            }
+        }
+        return v;
+    }
+    // the call claims success: then everything observable must equal the fault-free run
+    if (r.digest != dry.digest) {
+        v.cls = "wrong-success";
+        v.detail = "call reports success after a failed allocation but its outputs differ from the fault-free run";
+    }
+    return v;
+}
+
+static uint64_t case_hash(const Plan &p) {
+    std::string t = plan_to_text(p);
+    return hash_bytes(t.data(), t.size());
+}
+
+static void flush_stats(C20Stats &st, const Args &a) {
+    std::string s = "{";
+    auto add = [&](const char *k, uint64_t v) { s += (s.size() > 1 ? "," : "") + std::string("\"") + k + "\":" + std::to_string(v); };
+    add("ops", st.ops); add("alloc_ops", st.alloc_ops); add("dry", st.dry); add("faulted", st.faulted); add("hit", st.hit);
+    add("not_hit", st.not_hit); add("pairs", st.pairs); add("out_fail_clean", st.out_fail_clean); add("out_success_same", st.out_success_same);
+    add("wr_faults", st.wr_faults); add("events", st.events); add("leak_checks", st.leak_checks);
+    s += ",\"fn\":{";
+    bool first = true;
+    for (int f = 0; f < FN_COUNT; f++) {
+        if (!st.fn_ops[f]) continue;
+        s += (first ? "" : ",") + jstr(g_fn[f].name) + ":[" + std::to_string(st.fn_ops[f]) + "," + std::to_string(st.fn_alloc_ops[f]) + "," + std::to_string(st.fn_faulted[f]) + "]";
+        first = false;
+    }
+    s += "},\"nalloc_hist\":{";
+    first = true;
+    for (auto &kv : st.nalloc_hist) { s += (first ? "" : ",") + jstr(std::to_string(kv.first)) + ":" + std::to_string(kv.second); first = false; }
+    s += "},\"sites\":{";
+    first = true;
+    for (size_t i = 0; i < g_site_reached.size(); i++) {
+        if (!g_site_reached[i]) continue;
+        s += (first ? "" : ",") + jstr(site_name((uint32_t)i)) + ":[" + std::to_string(g_site_reached[i]) + "," + std::to_string(g_site_failed[i]) + "]";
+        first = false;
+        g_site_reached[i] = g_site_failed[i] = 0;
+    }
+    s += "}}";
+    printf("STAT %s\n", s.c_str());
+    if (!a.fpfile.empty()) {
+        FILE *f = fopen(a.fpfile.c_str(), "ab");
+        if (f) {
+            for (uint64_t h : st.cases) fwrite(&h, 8, 1, f);
+            fclose(f);
+        }
+    }
+    std::map<std::string, uint64_t> keep = st.viol_count;
+    st = C20Stats();
+    st.viol_count = keep;
+    fflush(stdout);
+}
+
+static void report(C20Stats &st, const Args &a, uint64_t run, const Plan &plan, const std::string &cls, const std::string &site, const std::string &detail) {
+    const Op &op = plan.tasks[0].ops[0];
+    std::string key = cls + ":" + g_fn[op.fn].name + ":" + site;
+    uint64_t &cnt = st.viol_count[key];
+    if (cnt++ >= 2) return;
+    Schedule none;
+    std::string extra = "function " + std::string(g_fn[op.fn].name) + "\n";
+    std::string path = write_replay("C20", cls, key, a.seed, run, plan, none, extra);
+    printf("VIOL {\"property\":\"C20\",\"class\":%s,\"key\":%s,\"replay\":%s,\"run\":%llu,\"detail\":%s}\n", jstr(cls).c_str(), jstr(key).c_str(),
+           jstr(path).c_str(), (unsigned long long)run, jstr(std::string(g_fn[op.fn].name) + ": " + detail).c_str());
+    fflush(stdout);
+}
+
+static void prepare_pre(const Plan &plan) {
+    g_pre.id = 7;
+    g_pre.plan = &plan.tasks[0];
+    arena_fill(g_pre);
+}
+
+int c20_batch(const Args &a) {
+    C20Stats st;
+    g_crash_hook = c20_crash_hook;
+    g_outdir = a.outdir;
+    int samples_left = a.worker == 0 && a.from == 0 ? 4 : 0;
+    int since_flush = 0;
+    static const int alloc_fams[] = {FAM_FMT, FAM_WFMT, FAM_SFMT, FAM_UNI, FAM_CMP};
+    for (uint64_t i = a.from; i < a.to; i += a.stride) {
+        uint64_t rs = mix64(a.seed, i);
+        Rng cr(mix64(rs, 1)), pr_(mix64(rs, 2));
+        Plan plan;
+        plan.locale = cr.chance(1, 2);
+        TaskPlan tp;
+        tp.arena_seed = cr.next();
+        uint32_t top = 64;
+        GenCfg g;
+        g.faults = false;
+        g.violations = cr.chance(1, 4);
+        g.allow_stdio = true;
+        int mode = cr.below(10);
+        bool ok;
+        if (mode < 6) ok = gen_alloc_op(pr_, tp, &top, plan.locale);                                   // site-directed
+        else if (mode < 8) ok = gen_op(pr_, alloc_fams[cr.below(5)], tp, &top, g, true, plan.locale); // families that can allocate
+        else ok = gen_op(pr_, cr.below(FAM_NFAM), tp, &top, g, true, plan.locale);                    // whole API: finds new allocation sites
+        if (!ok || tp.ops.empty()) continue;
+        tp.ops.resize(1);
+        // stream faults may be attached by the generators (write errors while a %ls buffer is live)
+        plan.tasks.push_back(tp);
+        Op &op = plan.tasks[0].ops[0];
+        op.f.alloc_k = 0;
+        op.f.alloc_k2 = 0;
+        g_cur_plan = &plan;
+        g_cur_seed = a.seed;
+        g_cur_run = i;
+        g_cur_fn = op.fn;
+        g_cur_phase = "dry";
+        printf("BEGIN %llu dry\n", (unsigned long long)i);
+        Hasher runhash;
+        prepare_pre(plan);
+        PassResult dryp;
+        exec_one(plan, dryp);
+        const OpResult dry = dryp.res[0][0];
+        runhash.u64(dry.digest);
+        st.ops++;
+        st.dry++;
+        st.fn_ops[op.fn]++;
+        st.events += dry.nev;
+        st.wr_faults += dry.wr_faults;
+        st.nalloc_hist[(int)dry.nalloc]++;
+        // no call leaks, faults or not
+        st.leak_checks++;
+        if (dry.outstanding) {
+            std::string site = "?";
+            for (auto &al : g_live) site = site_name(al.site);
+            report(st, a, i, plan, "leak", site, std::to_string(dry.outstanding) + " block(s) still live at return of a call in which no allocation failed");
+        }
+        if (samples_left > 0 && dry.nalloc) {
+            samples_left--;
+            printf("SAMPLE {\"op\":%s,\"allocation_requests\":%u,\"ret\":%lld}\n", op_to_json(op).c_str(), dry.nalloc, (long long)dry.raw);
+        }
+        if (dry.nalloc) {
+            st.alloc_ops++;
+            st.fn_alloc_ops[op.fn]++;
+            int n = (int)dry.nalloc;
+            struct FC { int k, mode, k2; };
+            std::vector<FC> cases;
+            for (int k = 1; k <= n; k++) { cases.push_back({k, 0, 0}); cases.push_back({k, 1, 0}); }
+            if (n >= 2) {
+                int np = std::min(3, n * (n - 1) / 2);
+                for (int q = 0; q < np; q++) {
+                    int k1 = 1 + cr.below(n - 1);
+                    int k2 = k1 + 1 + cr.below(n - k1);
+                    cases.push_back({k1, 0, k2});
+                    st.pairs++;
+                }
+            }
+            for (auto &fc : cases) {
+                op.f.alloc_k = fc.k;
+                op.f.alloc_mode = fc.mode;
+                op.f.alloc_k2 = fc.k2;
+                g_cur_phase = "fault";
+                printf("BEGIN %llu fault\n", (unsigned long long)i);
+                PassResult fp;
+                exec_one(plan, fp);
+                const OpResult &r = fp.res[0][0];
+                runhash.u64(r.digest);
+                st.faulted++;
+                st.fn_faulted[op.fn]++;
+                st.events += r.nev;
+                if (r.nfailed) { st.hit++; st.cases.insert(case_hash(plan)); }
+                else st.not_hit++;
+                Verdict v = judge(plan, dry, r);
+                if (!v.cls.empty()) {
+                    std::string site = failed_site(r, op.f);
+                    if (v.cls == "leak") {
+                        for (auto &al : g_live) site = site_name(al.site);
+                        site += "@fail:" + failed_site(r, op.f);
+                    }
+                    report(st, a, i, plan, v.cls, site, v.detail);
+                } else if (r.nfailed) {
+                    bool failed = shape_of(op).neg_is_failure ? r.raw < 0 : r.raw != 0;
+                    if (failed) st.out_fail_clean++;
+                    else st.out_success_same++;
+                }
+            }
+            op.f.alloc_k = op.f.alloc_k2 = 0;
+        }
+        printf("RUNHASH %llu %016llx\n", (unsigned long long)i, (unsigned long long)runhash.h);
+        if (++since_flush >= 256) { since_flush = 0; flush_stats(st, a); }
+    }
+    g_cur_plan = nullptr;
+    flush_stats(st, a);
+    return 0;
+}
+
+int c20_replay(const std::string &path) {
+    FILE *f = fopen(path.c_str(), "r");
+    if (!f) { perror(path.c_str()); return 2; }
+    std::string txt;
+    char buf[65536];
+    size_t n;
+    while ((n = fread(buf, 1, sizeof buf, f)) > 0) txt.append(buf, n);
+    fclose(f);
+    std::map<std::string, std::string> meta;
+    Plan plan;
+    Schedule sched;
+    if (!parse_replay(txt, meta, plan, sched) || plan.tasks[0].ops.empty()) { fprintf(stderr, "cannot parse %s\n", path.c_str()); return 2; }
+    std::string cls = meta["class"];
+    Plan dryplan = plan;
+    dryplan.tasks[0].ops[0].f.alloc_k = 0;
+    dryplan.tasks[0].ops[0].f.alloc_k2 = 0;
+    prepare_pre(dryplan);
+    PassResult dp;
+    exec_one(dryplan, dp);
+    OpResult dry = dp.res[0][0];
+    if (dry.outstanding && cls == "leak" && !plan.tasks[0].ops[0].f.alloc_k) {
+        printf("REPRODUCED property=C20 class=leak (fault-free call leaves %u block(s))\n", dry.outstanding);
+        return 1;
+    }
+    PassResult fp;
+    exec_one(plan, fp); // a crash ends the process in the fatal-signal handler (exit 100+signal)
+    Verdict v = judge(plan, dry, fp.res[0][0]);
+    if (!v.cls.empty() && (v.cls == cls || cls == "crash")) {
+        printf("REPRODUCED property=C20 class=%s %s\n", v.cls.c_str(), v.detail.c_str());
+        return 1;
+    }
+    printf("NOT-REPRODUCED property=C20 class=%s (now: %s; ret=%lld failed_requests=%u)\n", cls.c_str(), v.cls.empty() ? "ok" : v.cls.c_str(),
+           (long long)fp.res[0][0].raw, fp.res[0][0].nfailed);
+    return 0;
+}
